@@ -10,6 +10,10 @@ import BufModel.Path
     string that Go actually hashes.  File contents are arbitrary `Bytes`.
   * `parseFileNode` is the code AFTER the proposed `fix:` (split at the FIRST double space);
     `parseFileNodeOld` is the pre-fix behaviour (`strings.Split(s, "  ")` must give 2 parts).
+  * `validateNodePath` / `newFileNode` are the code AFTER the second `fix:` (a path containing
+    U+000A is rejected: the line-based manifest format cannot represent it);
+    `validateNodePathOld` / `newFileNodeOld` are the pre-fix behaviour (line feed accepted), kept
+    for the recorded counterexamples.
 -/
 namespace BufModel.Manifest
 open BufModel.Path
@@ -34,6 +38,7 @@ inductive MErr where
   | pathEmpty
   | pathInvalid        -- NormalizeAndValidate failed
   | pathNotNormal      -- path ≠ normalized path
+  | pathLineFeed       -- path contains U+000A (the line-based manifest cannot represent it)
   | noTrailingNewline
   | duplicatePath
   | depDigestType      -- b5: dependency digest is not b5
@@ -51,6 +56,7 @@ def MErr.tag : MErr → String
   | .pathEmpty => "path-empty"
   | .pathInvalid => "path-invalid"
   | .pathNotNormal => "path-not-normal"
+  | .pathLineFeed => "path-line-feed"
   | .noTrailingNewline => "no-trailing-newline"
   | .duplicatePath => "duplicate-path"
   | .depDigestType => "dep-digest-type"
@@ -168,16 +174,31 @@ structure FileNode where
   digest : Digest
   deriving DecidableEq
 
-/-- `validateFileNodeParameters` (the digest is never nil in the model). -/
-def validateNodePath (path : Str) : Except MErr Unit :=
+/-- `validateFileNodeParameters` BEFORE the line-feed fix (the digest is never nil in the
+    model): non-empty, valid, equal to its normal form.  These are also the checks every storage
+    bucket applies to its paths. -/
+def validateNodePathOld (path : Str) : Except MErr Unit :=
   if path = [] then .error .pathEmpty
   else match normalizeAndValidate path with
     | .error _ => .error .pathInvalid
     | .ok n => if path ≠ n then .error .pathNotNormal else .ok ()
 
+/-- `validateFileNodeParameters` as coded after the fix: the three checks above, in that order,
+    then `strings.Contains(path, "\n")` → error. -/
+def validateNodePath (path : Str) : Except MErr Unit :=
+  match validateNodePathOld path with
+  | .error e => .error e
+  | .ok () => if '\n' ∈ path then .error .pathLineFeed else .ok ()
+
 /-- `bufcas.NewFileNode`. -/
 def newFileNode (path : Str) (d : Digest) : Except MErr FileNode :=
   match validateNodePath path with
+  | .error e => .error e
+  | .ok () => .ok ⟨path, d⟩
+
+/-- `bufcas.NewFileNode` before the line-feed fix. -/
+def newFileNodeOld (path : Str) (d : Digest) : Except MErr FileNode :=
+  match validateNodePathOld path with
   | .error e => .error e
   | .ok () => .ok ⟨path, d⟩
 
